@@ -119,6 +119,68 @@ class _Sut:
         return False
 
 
+# --------------------------------------------------- simulated file system
+#
+# cla.save / cla.load (pyyeti.ytools.save/load) resolve the name `open` in the
+# module pyyeti.ytools; that name is the seam: for the duration of a run it is
+# bound to SimFS.open, an in-memory file system.  What has been written and
+# closed is durable; everything else (the live DR_Results of an event) is lost
+# by a simulated crash.
+
+
+class _SimFile(io.BytesIO):
+    def __init__(self, fs, name, data=b"", write=False):
+        super().__init__(data if not write else b"")
+        self._fs, self._name, self._write = fs, name, write
+
+    def close(self):
+        if self._write and not self.closed:
+            self._fs.files[self._name] = self.getvalue()
+        super().close()
+
+
+class SimFS:
+    def __init__(self):
+        self.files = {}
+        self.writes = 0
+        self.reads = 0
+
+    def open(self, name, mode="r", *a, **k):
+        if "b" not in mode:
+            raise HarnessError(f"SimFS: text-mode open of {name!r} not modelled")
+        if "w" in mode:
+            self.writes += 1
+            return _SimFile(self, name, write=True)
+        if name not in self.files:
+            raise FileNotFoundError(name)
+        self.reads += 1
+        return _SimFile(self, name, self.files[name])
+
+    @contextlib.contextmanager
+    def mounted(self, M):
+        import pyyeti.ytools as yt
+
+        had = "open" in vars(yt)
+        old = vars(yt).get("open")
+        yt.open = self.open
+        try:
+            yield self
+        finally:
+            if had:
+                yt.open = old
+            else:
+                del yt.open
+
+
+def fs_roundtrip(M, fs, name, obj, where):
+    """cla.save then cla.load through the simulated file system."""
+    with fs.mounted(M):
+        with _Sut(f"cla.save({where})"):
+            M.cla.save(name, obj)
+        with _Sut(f"cla.load({where})"):
+            return M.cla.load(name)
+
+
 # ------------------------------------------------- reference model: apply_uf
 
 
@@ -858,6 +920,11 @@ def scenario_campaign(ch, tr, st):
     top_sig = None
     steps = 0
     max_ops = 60
+    fs = SimFS()
+    st.fs = fs
+    crash_on = ch.flip(1, 3, "crash_on")
+    for e in events:
+        e.ckpt = None
     cur_event = None
     while steps < max_ops:
         pending = [e for e in events if len(e.done) < e.n]
@@ -872,6 +939,8 @@ def scenario_campaign(ch, tr, st):
             kinds += ["inspect", "envelope", "envelope"]
         if finished:
             kinds += ["split_merge", "calc_ext"]
+        if crash_on and started:
+            kinds += ["checkpoint", "crash_restart"]
         kind = kinds[ch.draw(len(kinds), "op")]
         steps += 1
         if kind == "recover":
@@ -900,6 +969,39 @@ def scenario_campaign(ch, tr, st):
             ev = finished[ch.draw(len(finished), "which_event")]
             op_calc_ext(M, ch, tr, st, ev)
             ops.append(f"calc_ext {ev.name}")
+        elif kind == "checkpoint":
+            ev = started[ch.draw(len(started), "which_event")]
+            with fs.mounted(M), _Sut("cla.save(event results)"):
+                cla.save(f"{ev.name}.p", ev.res)
+            ev.ckpt = list(ev.done)
+            ops.append(f"checkpoint {ev.name} after {len(ev.done)} cases")
+            tr.shape("checkpoint", ev.idx, len(ev.done))
+            st.fault("checkpoint_saved")
+        elif kind == "crash_restart":
+            # the process dies: the live results of one event are gone; what
+            # was saved survives.  Recovery restarts from there.
+            ev = started[ch.draw(len(started), "which_event")]
+            had = len(ev.done)
+            if ev.ckpt is None:
+                with _Sut("DR_Event.prepare_results"):
+                    ev.res = ev.DR.prepare_results("mission", ev.name)
+                ev.done = []
+                st.fault("crash_restart_from_scratch")
+            else:
+                with fs.mounted(M), _Sut("cla.load(event results)"):
+                    ev.res = cla.load(f"{ev.name}.p")
+                ev.done = list(ev.ckpt)
+                st.fault("crash_restart_from_checkpoint")
+                if len(ev.done) < had:
+                    st.fault("crash_lost_cases_redone")
+            if not isinstance(ev.res, cla.DR_Results):
+                raise Violation("restore_type_wrong", "cla.load(event results)", got=type(ev.res).__name__)
+            top = top_sig = None  # an envelope tree built on the dead objects is gone too
+            cur_event = None
+            ops.append(f"crash_restart {ev.name}: {had} -> {len(ev.done)} cases")
+            tr.shape("crash_restart", ev.idx, had, len(ev.done))
+            if ev.done:
+                check_event(M, st, ev, tr)
     st.rendered["ops"] = ops
     st.steps = steps
     ncases = sum(len(e.done) for e in events)
@@ -1136,6 +1238,8 @@ def check_event(M, st, ev, tr):
     dname = {"time": "time", "frf": "frf", "psd": "psd"}[ev.domain]
     for cs in ev.cats:
         where = f"{dname}_data_recovery:{cs.name}"
+        if cs.name not in res:
+            raise Violation("missing_category", where, have=list(res))
         r = res[cs.name]
         rows = cs.rows
         if r.ext is None:
@@ -1331,6 +1435,23 @@ def op_envelope(M, ch, tr, st, started, top, top_sig, ops):
             keys = [e.tkey for e in groups[g]]
             check_envelope(M, st, tree[g]["extreme"], keys, {e.tkey: [e] for e in groups[g]}, doappend, 1, "group", g)
         # stale entries must have been replaced, not accumulated
+    if ch.flip(1, 4, "summary_copy"):
+        # the documented summary workflow: save the merged structure, load it
+        # elsewhere, strip the histories, re-form the envelope there
+        fs = getattr(st, "fs", None) or SimFS()
+        cp = fs_roundtrip(M, fs, "summary.p", tree, "merged results")
+        if not isinstance(cp, cla.DR_Results):
+            raise Violation("restore_type_wrong", "cla.load(merged results)", got=type(cp).__name__)
+        strip = ch.flip(2, 3, "strip_hists")
+        if strip:
+            with _Sut("DR_Results.strip_hists"):
+                cp.strip_hists()
+        with _Sut("DR_Results.form_extreme(summary copy)"):
+            cp.form_extreme(ext_name="ENV", case_order=case_order, doappend=doappend)
+        st.fault("summary_copy_stripped" if strip else "summary_copy")
+        ops.append(f"  summary copy via save/load, strip_hists={strip}, form_extreme again")
+        tr.shape("summary_copy", strip)
+        check_envelope(M, st, cp["extreme"], used_keys, {k: contributors(k) for k in used_keys}, doappend, levels, "summary-copy", "ENV", stripped=strip)
     # forming envelopes must leave the events' own tables alone
     for e in order:
         check_event(M, st, e, tr)
@@ -1347,7 +1468,7 @@ def _labels_for(doappend, levels, which, key, ev, case_label):
     return {0: key, 1: f"{key},{ek},{case_label}", 2: f"{key},{ek}", 3: case_label}[doappend]
 
 
-def check_envelope(M, st, ext, keys, contrib, doappend, levels, which, ext_name):
+def check_envelope(M, st, ext, keys, contrib, doappend, levels, which, ext_name, stripped=False):
     st.probe("envelope_checks")
     events = [e for k in keys for e in contrib[k]]
     catnames = []
@@ -1442,6 +1563,7 @@ def check_envelope(M, st, ext, keys, contrib, doappend, levels, which, ext_name)
 
 def op_split_merge(M, ch, tr, st, ev):
     cla = M.cla
+    _cats_present(ev.res, ev, "event results")
     with _Sut("DR_Results.split"):
         sp = ev.res.split()
     cases = [c for _, c in sorted(ev.done)]
@@ -1512,8 +1634,15 @@ def op_split_merge(M, ch, tr, st, ev):
             _need(_close(a, b, TOL, _scale(b)), "split_merge_not_inverse", f"split/merge:{cs.name}.ext")
 
 
+def _cats_present(res, ev, where):
+    missing = [cs.name for cs in ev.cats if cs.name not in res]
+    if missing:
+        raise Violation("missing_category", where, missing=missing, have=list(res))
+
+
 def op_calc_ext(M, ch, tr, st, ev):
     res = copy.deepcopy(ev.res)
+    _cats_present(res, ev, "copy.deepcopy(event results)")
     with _Sut("DR_Results.calc_ext"):
         res.calc_ext()
     st.fault("calc_ext")
@@ -1563,7 +1692,8 @@ RULE = (
     "Each evaluation is one simulated loads-analysis history: (a) a campaign of 1-4 events (time or frf domain, 1-5 cases each, "
     "1-3 categories with drawn drfuncs/uf_reds/histpv/srspv forms, optionally two DR_Event configurations with different label "
     "sets) whose recover / inspect / envelope (merge + form_extreme, 1-2 levels, doappend 0-3, case_order) / split_merge / calc_ext "
-    "operations are drawn one at a time and checked after every operation against a brute-force model holding every raw response; "
+    "operations, plus checkpoint (cla.save of an event's results to a simulated file system) and crash_restart (live results lost, restored from the last checkpoint or started afresh, lost cases redone), "
+    "are drawn one at a time and checked after every operation against a brute-force model holding every raw response; "
     "(b) a direct cla.extrema fold of 1- or 2-column data; (c) a sequence of cla.apply_uf calls sharing one cache. Non-trivial: "
     ">= 2 cases/calls and (case order != identity or a fault kind fired or an envelope over >= 2 events). Distinct: digest of the "
     "operation list with data replaced by its shape/fault class (for (b),(c): including the drawn values)."
@@ -1573,8 +1703,12 @@ REAL_COMPONENTS = [
     "pyyeti.cla: extrema, maxmin, nan_arg*, DR_Def.add, DR_Event.add/apply_uf/frf_apply_uf/prepare_results, cla.apply_uf/_pre_calcs, "
     "DR_Results.init/time_data_recovery/frf_data_recovery/merge/split/form_extreme/init_extreme_cat/calc_ext, get_drfunc/_compile_strfunc",
     "pyyeti.srs.srs / srs_frf as called by DR_Results._compute_srs",
+    "pyyeti.ytools.save/load (cla.save/cla.load) and the copyreg reducer pickle_drresults/unpickle_drresults, DR_Results.strip_hists/delete_data",
 ]
-STUB_COMPONENTS = ["modal solutions of time/frf cases are synthetic arrays (bookkeeping does not require them to satisfy the equations of motion)"]
+STUB_COMPONENTS = [
+    "modal solutions of time/frf cases are synthetic arrays (bookkeeping does not require them to satisfy the equations of motion)",
+    "file system behind cla.save/cla.load: in-memory SimFS bound to the name `open` in pyyeti.ytools (closed files are durable; a simulated crash loses the live objects only)",
+]
 ASSUMPTIONS = [
     "reference model: brute force over stored raw responses; documented uncertainty-factor table written out with dense matrices",
     "m, b, k are block-diagonal with respect to the rigid-body / elastic / residual-flexibility partitions",
@@ -1584,4 +1718,5 @@ ASSUMPTIONS = [
 EXPECTED_FAULTS = [
     "psd_domain", "clock_jump_backwards", "clock_jump_forwards", "external_maxmin", "merge_rename", "mixed_abscissa", "model_varies_between_events", "zero_force_psd_row", "nan_cells", "ties", "ties_quantised", "one_column_ext", "label_mismatch", "j_out_of_order", "interleaved_events", "view_drfunc",
     "cache_reuse", "cache_reuse_repeat_uf", "stale_extreme_rebuild", "shared_DR_Event", "envelope_multi_event", "split_merge", "calc_ext",
+    "checkpoint_saved", "crash_restart_from_checkpoint", "crash_restart_from_scratch", "crash_lost_cases_redone", "summary_copy", "summary_copy_stripped",
 ]
